@@ -142,8 +142,17 @@ def generate(seed, tier):
         moff = gen_vhdx.layout(l)["meta_off"]
         for b in range(64):
             add("vhdx", rx, f"metadata_bit{b}", [["l0", moff, flip(b"metadata", b).hex()]])
-        # missing regions: corrupt the GUID of the region entry in the (used) first region table
+        # a metadata item the reader does not know: flagged IsRequired (alone / with IsVirtualDisk / with IsUser) it must be refused,
+        # optional (system or user) it must be ignored (MS-VHDX 2.6.1). Appended to the table, its data = an existing item's.
         img = gen_vhdx.Truth(rx).layers[0][1]
+        mh = img.read_at(moff, 32)
+        cnt = int.from_bytes(mh[10:12], "little")
+        last = img.read_at(moff + 32 + 32 * (cnt - 1), 32)
+        for flags, ok in ((4, False), (6, False), (5, False), (7, False), (0, True), (1, True), (2, True)):
+            ent = bytes(rng.getrandbits(8) for _ in range(16)) + last[16:24] + flags.to_bytes(4, "little") + bytes(4)
+            add("vhdx", rx, f"unknown_metadata_item_flags{flags}", [["l0", moff + 10, (cnt + 1).to_bytes(2, "little").hex()], ["l0", moff + 32 + 32 * cnt, ent.hex()]],
+                {"expect_ok": True} if ok else None)
+        # missing regions: corrupt the GUID of the region entry in the (used) first region table
         rt = img.read_at(192 << 10, 16 + 2 * 32)
         for k in range(2):
             g = rt[16 + 32 * k: 32 + 32 * k]
